@@ -412,6 +412,16 @@ def wl_join(ctx, rng, case):
     total.join(sA)
     ctx.check(bytes(total) == bytes(sAB), "a fresh sketch that joins the result of an earlier join does not hold both streams",
               got=refimpl.parse_cms(bytes(total)), want=refimpl.parse_cms(bytes(sAB)))
+    # ... and the two stay SEPARATE objects: what happens to one afterwards does not reach the other, in either direction
+    snap_arg, snap_recv = bytes(sA), bytes(total)
+    total.add(rng.choice(keys), 3)
+    ctx.check(bytes(sA) == snap_arg, "adding to a sketch that had joined another one (as an empty receiver) changed that other sketch (shared storage)")
+    snap_recv = bytes(total)
+    sA.add(rng.choice(keys), 2)
+    ctx.check(bytes(total) == snap_recv, "adding to the argument of an earlier join changed the receiver (shared storage)")
+    sA = cls.frombytes(snap_arg, **bl.kw_hash(hf))  # (back to the joined state for the steps below)
+    sA.query_type = "min"
+    ctx.count("aliasing_checks")
     onlyA = cls(width=width, depth=depth, **bl.kw_hash(hf))
     apply_stream(onlyA, A)
     restored = cls.frombytes(bytes(onlyA), **bl.kw_hash(hf))
